@@ -103,7 +103,12 @@ def _run_helpers(d):
 
         a = np.sort((np.arange(n1) * 7 + 3).astype(np.int64))
         for n2 in range(0, nmax + 1):
-            b = a[(np.arange(n2) * 5) % max(n1, 1)] if n1 else np.zeros(0, np.int64)
+            if n1 == 0:
+                b = np.zeros(0, np.int64)
+            elif n2 % 2:
+                b = a[(np.arange(n2) * 5) % n1]
+            else:
+                b = np.sort(a[(np.arange(n2) // 3) % n1])  # sorted with runs of equal host ids, as particle tables are
             want = np.searchsorted(a, b)
             for t in (1, 2, 3, 5, 16):
                 numba.set_num_threads(t)
